@@ -570,11 +570,23 @@ def run_all(slots, backend, ninja=None, per_project=250, seed=1):
     # failure (a truncated shared variable, an aborted `&&` chain of tests) is
     # never attributed to it
     redo = [s for s in slots if not ok_event(events[s.id])]
+    LAST_REDO[:] = [(s.pos, s.word) for s in redo]
     if redo:
         for s, r in zip(redo, pmap(lambda s: run_bisect([s], backend, ninja),
                                    redo)):
-            events.update(r)
+            # a step that gets its arguments when it is alone in the script
+            # but not next to the other steps is still a step that did not
+            # get them: the property is about every script made of such steps
+            for k, ev in r.items():
+                if ok_event(ev) and not ok_event(events[k]):
+                    events[k]['note'] = ('only next to other steps '
+                                         '(passes alone)')
+                else:
+                    events[k] = ev
     return events
+
+
+LAST_REDO = []
 
 
 def ok_event(ev):
